@@ -1,4 +1,5 @@
 import ProductMD.Model.Customs
+import ProductMD.Generated.ForestStruct
 /-!
 # The composeinfo variant forest (C11): `VariantBase.add`, `__getitem__`, `_get_all_parents`, `get_variants`
 
@@ -106,32 +107,82 @@ def addKey (U : Nat → Attrs) (c : Cont) (v : Nat) (key : Option Str) : Str :=
   | none, some k => if k.isEmpty then (U v).id else k
   | _, _ => (U v).id
 
-/-- step 1 of `add`: `if hasattr(self, "uid"): variant.parent = self` (a `Variants` container has no uid) -/
-def pre (s : State) (c : Cont) (v : Nat) : State :=
-  match c with
-  | some p => s.setParent v (some p)
-  | none => s
+/-- `d[k] = v`: replace in place, or append -/
+def dset (k : Str) (v : Nat) : List (Str × Nat) → List (Str × Nat)
+  | [] => [(k, v)]
+  | kv :: r => if kv.1 = k then (k, v) :: r else kv :: dset k v r
 
-/-- `VariantBase.add(self=c, variant=v, variant_id=key)` in the code's order:
-1. `if hasattr(self, "uid"): variant.parent = self`   (only a `Variant` has a uid; **before** any check)
-2. `variant.validate()`
-3. `variant_id = variant_id or variant.id`
-4. `if variant in self._get_all_parents(): raise ValueError`
-5. `new = self.variants.setdefault(variant_id, variant); if new != variant: raise ValueError` (identity comparison) -/
+/-- local variables of one call of `add` next to the forest -/
+structure Ctx where
+  s : State
+  old : Option (Option Nat) := none     -- `old_parent`, once saved
+  key : Option Str := none              -- `variant_id` after `variant_id = variant_id or variant.id`
+  newv : Option Nat := none             -- `new_variant`
+
+/-- meaning of one statement of `VariantBase.add(self=c, variant=v, variant_id=keyArg)`; `some e` = it raised -/
+def execStep (U : Nat → Attrs) (fuel : Nat) (c : Cont) (v : Nat) (keyArg : Option Str) (x : Ctx) : AddStep → Ctx × Option Err
+  | .saveParent => ({ x with old := some (x.s.parent v) }, none)
+  | .parentIfVariant =>
+    match c with
+    | some p => ({ x with s := x.s.setParent v (some p) }, none)
+    | none => (x, none)
+  | .parentOrNone => ({ x with s := x.s.setParent v c }, none)
+  | .validate =>
+    match validate U x.s v with
+    | .ok () => (x, none)
+    | .error e => (x, some e)
+  | .pickKey => ({ x with key := some (addKey U c v keyArg) }, none)
+  | .cycleCheck =>
+    match allParents x.s fuel c with
+    | none => (x, some .runtimeError)
+    | some ps => if ps.contains (some v) then (x, some .valueError) else (x, none)
+  | .setdefault =>
+    let k := x.key.getD (keyArg.getD [])
+    match dget k (x.s.kidsOf c) with
+    | some w => ({ x with newv := some w }, none)
+    | none => ({ x with s := x.s.setKids c (x.s.kidsOf c ++ [(k, v)]), newv := some v }, none)
+  | .dupRefuse =>
+    match x.newv with
+    | some w => if w = v then (x, none) else (x, some .valueError)
+    | none => (x, some .other)
+  | .overwrite =>
+    let k := x.key.getD (keyArg.getD [])
+    ({ x with s := x.s.setKids c (dset k v (x.s.kidsOf c)) }, none)
+  | .unknown => (x, some .other)
+
+/-- statements in order; the first one that raises ends the block (its earlier mutations stay) -/
+def execSteps (U : Nat → Attrs) (fuel : Nat) (c : Cont) (v : Nat) (keyArg : Option Str) : List AddStep → Ctx → Ctx × Option Err
+  | [], x => (x, none)
+  | st :: rest, x =>
+    match execStep U fuel c v keyArg x st with
+    | (x', some e) => (x', some e)
+    | (x', none) => execSteps U fuel c v keyArg rest x'
+
+/-- a whole script: `pre`, then the `try:` block – on an exception the handler restores the saved parent pointer when the
+source has that handler – then `post` -/
+def runScript (U : Nat → Attrs) (fuel : Nat) (sc : AddScript) (s : State) (c : Cont) (v : Nat) (keyArg : Option Str) :
+    State × Except Err Unit :=
+  match execSteps U fuel c v keyArg sc.pre { s := s } with
+  | (x1, some e) => (x1.s, .error e)
+  | (x1, none) =>
+    match execSteps U fuel c v keyArg sc.body x1 with
+    | (x2, some e) =>
+      if sc.restore then
+        match x2.old with
+        | some o => (x2.s.setParent v o, .error e)
+        | none => (x2.s, .error .other)
+      else (x2.s, .error e)
+    | (x2, none) =>
+      match execSteps U fuel c v keyArg sc.post x2 with
+      | (x3, some e) => (x3.s, .error e)
+      | (x3, none) => (x3.s, .ok ())
+
+/-- `VariantBase.add(self=c, variant=v, variant_id=key)`: the script read from the source on this run.  At the current
+source (`Forest.script_here`): save the old parent pointer; `variant.parent = self` (or `None` in the top-level container);
+then, inside `try`, validate / key / ancestor check / `setdefault` / duplicate refusal; any exception restores the old
+parent pointer and is re-raised. -/
 def add (U : Nat → Attrs) (fuel : Nat) (s : State) (c : Cont) (v : Nat) (key : Option Str) : State × Except Err Unit :=
-  let s1 := pre s c v
-  match validate U s1 v with
-  | .error e => (s1, .error e)
-  | .ok () =>
-    let k := addKey U c v key
-    match allParents s1 fuel c with
-    | none => (s1, .error .runtimeError)
-    | some ps =>
-      if ps.contains (some v) then (s1, .error .valueError)
-      else
-        match dget k (s1.kidsOf c) with
-        | some w => if w = v then (s1, .ok ()) else (s1, .error .valueError)
-        | none => (s1.setKids c (s1.kidsOf c ++ [(k, v)]), .ok ())
+  runScript U fuel Gen.forest_add_script s c v key
 
 structure Op where
   c : Cont
